@@ -115,6 +115,77 @@ NOINL long deep_fork(long d) { volatile long pad = d; if (d == 0) { int st; pid_
 NOINL void deep_exit(long d) { volatile long pad = d; if (d == 0) { report_to("bottom"); exit(6); } deep_exit(d - 1); mix(pad); }
 int main(void) { mix(deep_fork(40)); report_to("main"); deep_exit(40); return 0; }
 ''',
+    # ---- traced code after thread teardown: libmcount's own key destructor (mtd_dtor) runs first (its key is the oldest),
+    # then the program's instrumented destructors run in a thread the tracer has already torn down
+    "tsd": r'''#include <pthread.h>
+static pthread_key_t k1, k2;
+static pthread_mutex_t lk = PTHREAD_MUTEX_INITIALIZER;
+static uint64_t total; static int folded;
+struct acc { uint64_t sum; int id; int again; };
+NOINL uint64_t fold(uint64_t h, uint64_t v) { return (h ^ v) * 1099511628211ULL; }
+NOINL double scale(double a, double b) { return a * b + 0.25; }
+NOINL struct acc *my_acc(pthread_key_t k) { struct acc *a = pthread_getspecific(k); if (!a) { a = calloc(1, sizeof *a); pthread_setspecific(k, a); } return a; }
+NOINL void work(int id, int n, int again) { struct acc *a = my_acc(k1); int i; a->id = id; a->again = again; for (i = 0; i < n; i++) a->sum = fold(a->sum, id * 1000 + i); }
+NOINL void dtor1(void *p) { struct acc *a = p;
+  pthread_mutex_lock(&lk); total += fold(a->sum, a->id + 16 * a->again); total += (uint64_t)scale((double)a->id, 3.0); folded++; pthread_mutex_unlock(&lk);
+  if (a->again > 0) { a->again--; a->sum = fold(a->sum, 99); pthread_setspecific(k1, a); if (a->again == 1) my_acc(k2)->id = a->id; return; }
+  free(a); }
+NOINL void dtor2(void *p) { struct acc *a = p; pthread_mutex_lock(&lk); total += fold(7, a->id); folded += 10; pthread_mutex_unlock(&lk); free(a); }
+NOINL void deep_exit(long d, int id) { if (d == 0) { work(id, 5, id & 3); pthread_exit((void *)(intptr_t)id); } deep_exit(d - 1, id); }
+static void *worker(void *arg) { int id = (int)(intptr_t)arg; work(id, 40, id & 3); work(id, 20, id & 3); if (id >= 8) deep_exit(id - 6, id); return arg; }
+int main(void) {
+  pthread_t t[6]; void *r; long i;
+  pthread_key_create(&k1, dtor1); pthread_key_create(&k2, dtor2);
+  for (i = 0; i < 4; i++) { pthread_create(&t[0], NULL, worker, (void *)(intptr_t)i); pthread_join(t[0], &r); mix((uint64_t)(intptr_t)r); mix(total); mix(folded); }
+  for (i = 0; i < 6; i++) pthread_create(&t[i], NULL, worker, (void *)(intptr_t)(i + 4));
+  for (i = 0; i < 6; i++) { pthread_join(t[i], &r); mix((uint64_t)(intptr_t)r); }
+  mix(total); mix(folded);
+  report_to("main"); return (int)(dg % 60);
+}
+''',
+    # a signal handler (instrumented) delivered to a thread while its thread-specific data is being destroyed, and during exit()
+    "tsdsig": r'''#include <pthread.h>
+#include <signal.h>
+static pthread_key_t k1;
+static volatile long hits; static uint64_t total;
+NOINL long hleaf(long x) { return x * 5 + 1; }
+NOINL static void handler(int sig) { __sync_fetch_and_add(&hits, hleaf(sig) - 5 * sig); }
+NOINL long leaf(long x) { return x * 3 + 1; }
+NOINL void dtor1(void *p) { long v = (long)(intptr_t)p; pthread_kill(pthread_self(), SIGUSR1); __sync_fetch_and_add(&total, (uint64_t)leaf(v));
+  if (v & 1) pthread_setspecific(k1, (void *)(intptr_t)(v + 1)); }
+static void *worker(void *arg) { pthread_setspecific(k1, arg); leaf(1); raise(SIGUSR1); return arg; }
+NOINL static void bye(void) { raise(SIGUSR1); mix(hits); mix(leaf(9)); report_to("atexit"); }
+__attribute__((destructor)) NOINL static void fini(void) { raise(SIGUSR1); mix(hits); report_to("fini"); }
+int main(void) {
+  pthread_t t[3]; void *r; long i;
+  signal(SIGUSR1, handler); atexit(bye);
+  pthread_key_create(&k1, dtor1);
+  for (i = 0; i < 3; i++) pthread_create(&t[i], NULL, worker, (void *)(intptr_t)(i + 1));
+  for (i = 0; i < 3; i++) pthread_join(t[i], &r);
+  mix(total); mix(hits);
+  report_to("main"); exit(11);
+}
+''',
+    # C++ thread_local objects with instrumented destructors (run at thread exit before the key destructors) next to a key destructor
+    "tlsdtor": r'''// c++
+#include <pthread.h>
+static pthread_mutex_t lk = PTHREAD_MUTEX_INITIALIZER;
+static uint64_t total; static pthread_key_t k1;
+NOINL uint64_t fold(uint64_t h, uint64_t v) { return (h ^ v) * 1099511628211ULL; }
+struct Acc { uint64_t sum; int id; Acc() : sum(3), id(0) {} NOINL ~Acc() { pthread_mutex_lock(&lk); total += fold(sum, id); pthread_mutex_unlock(&lk); } };
+static thread_local Acc acc; static thread_local Acc acc2;
+NOINL void work(int id, int n) { acc.id = id; for (int i = 0; i < n; i++) acc.sum = fold(acc.sum, id * 100 + i); if (id & 1) acc2.id = id + 50; }
+NOINL void kd(void *p) { pthread_mutex_lock(&lk); total += fold(11, (uint64_t)(intptr_t)p); pthread_mutex_unlock(&lk); }
+static void *worker(void *arg) { int id = (int)(intptr_t)arg; work(id, 30); if (id & 2) pthread_setspecific(k1, arg); if (id == 4) pthread_exit(arg); return arg; }
+int main(void) {
+  pthread_t t[5]; void *r;
+  pthread_key_create(&k1, kd);
+  for (long i = 0; i < 5; i++) pthread_create(&t[i], NULL, worker, (void *)(intptr_t)(i + 1));
+  for (long i = 0; i < 5; i++) { pthread_join(t[i], &r); mix((uint64_t)(intptr_t)r); }
+  work(9, 3); mix(total);
+  report_to("main"); return 12;
+}
+''',
 }
 
 
@@ -132,5 +203,8 @@ PLAN = {
     "pexit": ["plain", "max-stack", "nest-libcall", "estimate-return"],
     "ovf": ["plain", "max-stack-64", "nest-libcall", "estimate-return"],
     "ovf2": ["max-stack-16", "max-stack-16-l", "plain"],
+    "tsd": ["plain", "nest-libcall", "estimate-return", "max-stack", "script", "args", "small-buffer", "time"],
+    "tsdsig": ["plain", "nest-libcall", "estimate-return", "small-buffer", "depth"],
+    "tlsdtor": ["plain", "nest-libcall", "estimate-return", "script", "no-libcall"],
 }
 
